@@ -387,7 +387,7 @@ func TestC08CasterStep(t *testing.T) {
 			add("deregister", 2, m.ruleDeregister)
 			add("send", 3, m.ruleSend)
 			add("add0", 1, m.ruleAdd0)
-			t.Repeat(acts)
+			t.Repeat(vkit.NoStarve(acts, nil))
 			// teardown: finish an in-flight Send, deregister the rest
 			for _, s := range m.slots {
 				if m.sending() && s.state == "idle" && s.round == m.round {
